@@ -379,4 +379,10 @@ package sm2
 //@   (requires key (wfpriv pub))
 //@   (requires size (bvslt (len data) #x0000001000000000))
 //@   (requires field256 (<= (ec.p (tag (field pub PublicKey Curve))) 115792089237316195423570985008687907853269984665640564039457584007913129639936)))
-//@ (func CipherUnmarshal sweep (modifies))
+// the raw form keeps every byte of the decoded fields (coordinates are padded to 32 bytes, never cut): a coordinate of more
+// than 32 bytes makes the result longer, so that Decrypt sees a different, rejected, C1 instead of a silently reduced one
+//@ (func CipherUnmarshal sweep split-returns
+//@   (modifies)
+//@   (ensures-internal whole (=> (isnil result.1)
+//@      (and (= (len result.0) (bvadd 1 (bvadd (bvadd (len x) (len y)) (bvadd (len hash) (len cipherText)))))
+//@           (bvsge (len x) 32) (bvsge (len y) 32) (= (at result.0 0) #x04)))))
